@@ -209,6 +209,12 @@ static void peer_frame(const uint8_t *dec, size_t dl)
 			vf_count("peer:own-requests-received", 1);
 			return;
 		}
+		/* one-way filler message of this side (no id, no reply wanted) */
+		if (dl > idlen && dec[idlen] == 0xEE) {
+			int zero = 1;
+			for (size_t i = 0; i < idlen; i++) if (dec[i]) zero = 0;
+			if (zero) { vf_count("peer:filler-received", 1); frames_seen--; return; }
+		}
 		vf_fail("model:conn:reply-not-marked", "peer received message %s whose id %s does not carry the reply bit and which is no request of this side",
 		        vf_hex(hx1, sizeof(hx1), dec, dl), vf_hex(hx2, sizeof(hx2), idb, idlen));
 	}
@@ -267,10 +273,17 @@ static void peer_send(int fd, const uint8_t *frame, size_t fl)
 	}
 }
 
+/* congestion: the peer does not read while the connection answers (stream sockets with a small send buffer) */
+static int peer_stalled;
+static size_t unsent(void)
+{
+	MPT_STRUCT(stream) *srm = (void *) con.out.buf._buf;
+	return (!dgram && srm) ? srm->_wd.data.len : 0;
+}
 /* one input step the way output_remote.c:remoteNext does it, then dispatch */
 static void pump(int peer)
 {
-	for (int round = 0; round < 40; round++) {
+	for (int round = 0; round < 400; round++) {
 		struct pollfd pf;
 		int readable, d = 0, guard = 0;
 		if (dgram) {
@@ -303,8 +316,8 @@ static void pump(int peer)
 			vf_at("mpt_stream_poll");
 			mpt_stream_poll(srm, POLLIN | POLLOUT, 0);
 		}
-		peer_read(peer);
-		if (!readable && round >= 1) break;
+		if (!peer_stalled) peer_read(peer);
+		if (!readable && round >= 1 && (peer_stalled || !unsent())) break;
 	}
 }
 
@@ -316,14 +329,19 @@ void vf_case(uint64_t idx, vf_rng *r)
 	MPT_STRUCT(socket) sock;
 	char desc[700];
 	size_t dl;
-	int n_peer = 0, n_own = 0, n_defer = 0;
+	int n_peer = 0, n_own = 0, n_defer = 0, n_congest = 0;
 
-	nreq = 0; rxlen = 0; frames_seen = 0;
+	nreq = 0; rxlen = 0; frames_seen = 0; peer_stalled = 0;
 	dgram = (int) (idx & 1);
 	idlen = idlens[vf_below(r, sizeof(idlens) / sizeof(*idlens))];
 	if (socketpair(AF_UNIX, dgram ? SOCK_DGRAM : SOCK_STREAM, 0, sv) < 0) vf_inconclusive("socketpair: %s", strerror(errno));
 	fcntl(sv[0], F_SETFL, fcntl(sv[0], F_GETFL) | O_NONBLOCK);
 	fcntl(sv[1], F_SETFL, fcntl(sv[1], F_GETFL) | O_NONBLOCK);
+	if (!dgram) {
+		/* small send buffer towards the peer (non-blocking socket) */
+		int sz = 2048;
+		setsockopt(sv[0], SOL_SOCKET, SO_SNDBUF, &sz, sizeof(sz));
+	}
 	con = con_init;
 	sock._id = sv[0];
 	cur = "assign";
@@ -345,6 +363,22 @@ void vf_case(uint64_t idx, vf_rng *r)
 		int n = vf_range(r, 1, 4);
 		if (vf_chance(r, 3, 5)) {
 			/* requests of the peer */
+			int congest = !dgram && vf_chance(r, 1, 3);
+			if (congest) {
+				/* fill the socket towards the peer with one-way messages until the stream cannot flush any more */
+				uint8_t fill[240];
+				int msgs = 0;
+				memset(fill, 0xEE, sizeof(fill));
+				cur = "fill";
+				while (!unsent() && msgs < 2000) {
+					vf_at("mpt_connection_push");
+					if (mpt_connection_push(&con, sizeof(fill), fill) < 0 || mpt_connection_push(&con, 0, 0) < 0) break;
+					msgs++;
+				}
+				if (unsent()) { peer_stalled = 1; vf_count("conn:congested-burst", 1); n_congest++; }
+				vf_log("congestion: %d filler messages, %zu bytes unsent", msgs, unsent());
+				vf_fp_u64(0xc0);
+			}
 			cur = "peer requests";
 			for (int k = 0; k < n; k++) {
 				struct request *q = &reqs[nreq];
@@ -391,6 +425,15 @@ void vf_case(uint64_t idx, vf_rng *r)
 				n_defer++;
 			}
 			pump(sv[1]);
+			if (peer_stalled) {
+				/* the peer starts reading again: everything queued must arrive, each reply once */
+				int answered_congested = 0;
+				for (int i = 0; i < nreq; i++) answered_congested += !reqs[i].own && reqs[i].handled && !reqs[i].zero && !reqs[i].replies_seen;
+				if (answered_congested) vf_count("conn:replies-queued-while-congested", (uint64_t) answered_congested);
+				peer_stalled = 0;
+				cur = "drain";
+				pump(sv[1]);
+			}
 		} else {
 			/* requests of this side */
 			int first = nreq;
@@ -486,6 +529,7 @@ void vf_case(uint64_t idx, vf_rng *r)
 	if (n_defer) vf_count("history:with-deferred-reply", 1);
 	if (n_own) vf_count("history:with-own-requests", 1);
 	if (n_peer) vf_count("history:with-peer-requests", 1);
+	if (n_congest) vf_count("history:with-congestion", 1);
 	if (n_own + n_peer >= 2) vf_nontrivial();
 	vf_sample("%s  => %d peer requests, %d own requests, %d deferred, %d messages at the peer", desc, n_peer, n_own, n_defer, frames_seen);
 }
